@@ -12,7 +12,7 @@ RULE = ('seeded workloads of 1-3 messages x 1-4 recipients over one real '
         '= some message had >= 2 delivery attempts; distinct = distinct '
         'event-log digest')
 COMPONENTS = qc.COMPONENTS
-BUDGET = {'quick': 6000, 'thorough': 400000}
+BUDGET = {'quick': 15000, 'thorough': 400000}
 PROBES = ['retry-round', 'round>=3', 'per-recipient-result',
           'sequence-shaped-result', 'unexpected-exception-path',
           'mixed-outcome', 'retry-exhaustion', 'bounce', 'announcement',
